@@ -193,13 +193,22 @@ func (el EntryList) Equal(e2 EntryList) bool {
 	copy(second, e2)
 
 	matches := 0
+	used := make([]bool, len(second))
 
 	for _, ea := range first {
-		for _, eb := range second {
+		for i, eb := range second {
+			if used[i] {
+				continue
+			}
+
 			if ea.Timestamp.Equal(eb.Timestamp.Time) {
 				// Timestamps equal, check the record
 				if reflect.DeepEqual(ea.Record, eb.Record) {
+					// each entry of the second list matches at most once
+					used[i] = true
 					matches++
+
+					break
 				}
 			}
 		}
